@@ -10,7 +10,7 @@
   F-C05a (start timer at `now = end_time`) and F-C05b (flexible downtime on a never-checked checkable)
   are repaired in /repo (eead572, 40d44b0); `start_once` and `flexible_trigger` are full theorems.
 -/
-import IcingaProofs.C05.Trace
+import IcingaProofs.C05.Whole
 
 namespace Icinga.C05
 
@@ -82,6 +82,19 @@ theorem trigger_cascade (n : Nat) (now t : Int) (ht : t ≠ 0) (id : Nat) (dts :
     ∃ x' ∈ triggerDt (n + 2) now t id dts,
       x'.id = c ∧ x'.removed = false ∧ (x'.trigger ≠ 0 ∨ canBeTriggered now x' = false) :=
   cascade_children n now t ht id dts d hf hc c hcm x hx hl
+
+/-- **trigger_cascade_deep.**  At arbitrary depth: after the last operation of any well-formed run from a
+    never-checked checkable, every downtime whose `TriggerDowntime` guard was passed during that operation
+    (its OnDowntimeTriggered count grew) has every downtime registered in its `triggers` that still
+    exists triggered, or not triggerable at that instant — and this holds for each of those in turn.
+    The fuel the model's callers pass (the number of downtimes) never runs out because `triggers` only
+    name newer downtimes (`Newer`, kept by every operation). -/
+theorem trigger_cascade_deep (k : Kind) (ops : List Op) (op : Op) (hw : WF 990 (ops ++ [op])) :
+    ∀ q ∈ preModel (run (initSt k) ops) op, ∀ q' ∈ (step (run (initSt k) ops) op).1.dts,
+      q'.id = q.id → q.trigEv < q'.trigEv →
+      ∀ c ∈ q.triggers, ∀ x' ∈ (step (run (initSt k) ops) op).1.dts, x'.id = c → x'.removed = false →
+        x'.trigger ≠ 0 ∨ canBeTriggered op.now x' = false :=
+  cascade_run ops 990 (initSt k) (tinv_init k).sinv (tinv_init k).wfl op hw
 
 /-! ### DowntimeEnd: at most once, only at removal, only if the downtime had taken effect -/
 
@@ -214,68 +227,44 @@ theorem flexible_trigger (st : St) (now : Int) :
     unfold resultOp
     split <;> simp [hok]
   · intro s te hs hok hte d hd huniq hr hf h0 h1 h2
-    have hcan := can_of_fresh_flexible hf h0 h1 h2
-    have tr := trigRel_RC now te
-    have htk : (fun t' => t' = te ∧ te ≠ 0) te := ⟨rfl, hte⟩
-    have hdts : (resultOp st s te now).1.dts = triggerAll now te st.dts := by
-      simp [resultOp, hs, hok]
-    rw [hdts]
-    unfold triggerAll
-    have hmem : d.id ∈ liveIds st.dts := by
-      unfold liveIds
-      exact List.mem_map.mpr ⟨d, List.mem_filter.mpr ⟨hd, by simp [hr]⟩, rfl⟩
-    obtain ⟨pre, post, hsplit⟩ := List.append_of_mem hmem
-    rw [hsplit, List.foldl_append, List.foldl_cons]
-    have hg : ∀ (acc : List Dt) (i : Nat), AllC (fun _ => True) acc →
-        Both (RC te) acc (triggerDt (st.dts.length + 1) now te i acc) :=
-      fun acc i hacc => both_triggerDt tr _ te htk i acc hacc
-    have h1 := both_foldl tr.refl tr.trans tr.ctx _ hg pre st.dts (allc_trivial _)
-    obtain ⟨x1, hx1, r1⟩ := h1.1 d hd
-    have hl1 : live d.id x1 = true := rc_live r1 (by simp [live, hr])
-    obtain ⟨x2, hx2, hd2⟩ := triggerDt_done st.dts.length now te hte d.id _ x1 hx1 hl1
-    -- x2 descends from d (unique id)
-    have h12 := both_trans tr.trans h1 (hg (pre.foldl (fun acc i => triggerDt (st.dts.length + 1) now te i acc) st.dts) d.id (allc_trivial _))
-    have h3 := both_foldl tr.refl tr.trans tr.ctx _ hg post
-      (triggerDt (st.dts.length + 1) now te d.id (pre.foldl (fun acc i => triggerDt (st.dts.length + 1) now te i acc) st.dts))
-      (allc_trivial _)
-    obtain ⟨x3, hx3, r3⟩ := h3.1 x2 hx2
-    obtain ⟨y, hy, ry⟩ := h12.2 x2 hx2
-    have hyd : y = d := huniq y hy (by rw [← ry.1]; exact hd2.1)
-    subst hyd
-    have ht2 : x2.trigger = te := by
-      rcases rc_can now ry with ⟨_, h⟩ | h
-      · exact h
-      · rcases ry.2.2.2.2.2.2.2 with h7 | ⟨_, h7⟩
-        · rcases hd2.2.2 with h3 | h3
-          · rw [h7] at h3; exact absurd h0 h3
-          · rw [h, hcan] at h3; exact absurd h3 (by simp)
-        · exact h7
-    refine ⟨x3, hx3, by rw [r3.1]; exact hd2.1, by rw [r3.2.1]; exact hd2.2.1, ?_⟩
-    rcases r3.2.2.2.2.2.2.2 with h7 | ⟨h7, _⟩
-    · rw [h7]; exact ht2
-    · rw [ht2] at h7; exact absurd h7 hte
+    exact result_triggers_flexible st now s te hs hok hte d hd huniq hr hf h0 h1 h2
+
+/-- **flexible_trigger_exact.**  In every state reached by a well-formed run, an accepted non-OK result at
+    `now` triggers every existing, not yet triggered flexible downtime with `start ≤ now ≤ end`, and its
+    trigger time is exactly the result's execution end (no uniqueness hypothesis: ids are unique in
+    reachable states, so the downtime is identified by its id). -/
+theorem flexible_trigger_exact (k : Kind) (ops : List Op) (hw : WF 990 ops) (s : Nat) (te now : Int)
+    (hs : stale (run (initSt k) ops) te now = false) (hok : isOK (run (initSt k) ops).kind s = false)
+    (hte : te ≠ 0) :
+    ∀ d ∈ (run (initSt k) ops).dts, d.removed = false → d.fixed = false → d.trigger = 0 →
+      d.start ≤ now → now ≤ d.fin →
+      ∃ d' ∈ (resultOp (run (initSt k) ops) s te now).1.dts, d'.id = d.id ∧ d'.removed = false ∧
+        d'.trigger = te ∧ ∀ y ∈ (resultOp (run (initSt k) ops) s te now).1.dts, y.id = d.id → y = d' := by
+  obtain ⟨T, sp, h⟩ := tinv_run ops (specInit k) (initSt k) 990 (tinv_init k) hw
+  intro d hd hr hf h0 h1 h2
+  obtain ⟨d', hd', hid, hr', ht⟩ := result_triggers_flexible (run (initSt k) ops) now s te hs hok hte d hd
+    (fun y hy hyid => eq_of_id h.wfl.1 hy hd hyid) hr hf h0 h1 h2
+  refine ⟨d', hd', hid, hr', ht, ?_⟩
+  intro y hy hyid
+  have hnd' : (idsOf (resultOp (run (initSt k) ops) s te now).1.dts).Nodup := by
+    rw [ids_result]; exact h.wfl.1
+  exact eq_of_id hnd' hy hd' (by rw [hyid, hid])
 
 /-! ### The whole trace -/
 
 /-- **model_trace_meets_spec_partial.**  For every well-formed operation sequence (the clock does not run
-    backwards, check results carry an execution end in `(0, now]`) from a never-checked checkable, the
-    trace of the model — operations with the model's own observations — satisfies the executable
-    specification on the clauses of `coreMask`: in-downtime iff a downtime is in effect, depth = their
-    number, trigger time write-once, triggers only inside the window, at most one DowntimeStart per
-    downtime, DowntimeEnd exactly once for a downtime that took effect and is removed (none otherwise),
-    OnDowntimeRemoved exactly at removal, a dropped result changes nothing, schedule-owned downtimes are
-    protected from users.  The full statement `specTrace (specInit k) (trace (initSt k) ops) = none` is false of the
-    code (F-C05c: `started_when_triggered`, `end_has_start`); the remaining clauses are listed at
-    `coreMask`. -/
+    backwards, check results carry an execution end in `(0, now]`, durations are not negative) from a
+    never-checked checkable, the trace of the model — operations with the model's own observations —
+    satisfies the executable specification, evaluated through the specification's own bookkeeping, on
+    every clause except the two that are false of the code (`coreMask`, IcingaProofs/C05/Whole.lean):
+    existence, dropped result, in-downtime iff, depth, trigger write-once, trigger only in window,
+    flexible trigger (exact time), trigger cascade, start once, fixed started in window, end once,
+    removed event, expired removed, owner protected.  The full statement
+    `specTrace (specInit k) (trace (initSt k) ops) = none` is false of the code: F-C05c violates
+    `started_when_triggered` and `end_has_start` (see `started_counterexample`). -/
 theorem model_trace_meets_spec_partial (k : Kind) (ops : List Op) (hw : WF 990 ops) :
-    specTraceM coreMask (specInit k) (trace (initSt k) ops) = none := by
-  apply trace_core ops (specInit k) (initSt k) 990 _ _ _ _ _ hw
-  · exact ⟨rfl, rfl, fun h => by simp [specInit] at h, fun _ => rfl, rfl, rfl, Pw.nil⟩
-  · simp [initSt, idsOf]
-  · refine ⟨by simp [initSt], by simp [initSt], ?_⟩
-    intro d hd; simp [initSt] at hd
-  · intro d hd; simp [initSt] at hd
-  · exact ⟨by simp [initSt], fun d hd => by simp [initSt] at hd⟩
+    specTraceM coreMask (specInit k) (trace (initSt k) ops) = none :=
+  trace_core ops (specInit k) (initSt k) 990 (tinv_init k) hw
 
 /-! ### Non-vacuity -/
 
@@ -321,6 +310,15 @@ example : specTrace (specInit .service)
     [(.add ⟨1, true, 1000, 1020, 0, 0, false⟩ 1001, ⟨1, 1, true, [(1, 1001)], [(1, 1, 1), (3, 1, 1)]⟩),
      (.pump 1002, ⟨0, 1, true, [(1, 1002)], []⟩)]
     = some .triggerWriteOnce := by decide
+
+/-- The masked predicate of `model_trace_meets_spec_partial` is not vacuous either … -/
+example : specTraceM coreMask (specInit .service)
+    [(.add ⟨1, true, 1000, 1020, 0, 0, false⟩ 1001, ⟨1, 0, true, [(1, 1001)], [(1, 1, 1), (3, 1, 1)]⟩)]
+    = some .depthEqCount := by decide
+
+/-- … and the only thing it hides on the F-C05c scenario is the F-C05c clause. -/
+example : specTrace (specInit .service) (trace (initSt .service) ceNeverStarted) = some .startedWhenTriggered ∧
+    specTraceM coreMask (specInit .service) (trace (initSt .service) ceNeverStarted) = none := by decide
 
 /-- … and accepts the model's own trace of the chained scenario. -/
 example : specTrace (specInit .host) (trace (initSt .host) (exampleOps ++ [.pump 1030])) = none := by decide
